@@ -14,8 +14,8 @@ Definition C06_sound_full : Prop :=
     defs_f E dl ar md (classes E) = Some ds -> enc_ok n E cur base t v j = true -> schema_f E dl ar cur m t = Some s ->
     2 * n + 1 <= k -> jvalid pm ds k s j = true.
 
-(* Soundness on the domain ty_ok / env_ok (= everything except the known findings; fixed tuples
-   with Unpack segments are covered by the K6 theorems only): for every dialect (ref prefix),
+(* Soundness on the domain ty_ok / env_ok (= everything except the known findings; fixed tuples may
+   contain an Unpack[...] segment per level, nested to any depth): for every dialect (ref prefix),
    all_refs mode, class table, type, value, admissible serialization j, all fuels. *)
 Theorem C06_sound_partial :
   forall (pm: string -> string -> bool),
@@ -118,3 +118,27 @@ Example C06_nonvacuous_nt_omit : env_ok E_nv2 = true /\ ty_ok 9 E_nv2 false fals
   (exists s ds, schema_f E_nv2 dl2020 true false 9 (TData "S") = Some s /\ defs_f E_nv2 dl2020 true 9 (classes E_nv2) = Some ds /\
                 jvalid pm_any ds 50 s j_nv2 = true).
 Proof. exact nonvacuous2. Qed.
+
+(* non-vacuity on fixed tuples with an Unpack segment (element-wise soundness, round 4): the hypotheses hold for
+   Tuple[int, Unpack[Tuple[str, ...]], bool] and Tuple[int, Unpack[Tuple[str, float]]]; their schemas accept the
+   serializations and reject a too short array / a wrongly typed prefix element *)
+Example C06_nonvacuous_unpack :
+  ty_ok 9 E0 false false t_unp_var = true /\ ty_ok 9 E0 false false t_unp_fix = true /\
+  enc_ok 9 E0 false false t_unp_var (VList [VInt 1; VStr "a"; VStr "b"; VBool true]) (JArr [JInt 1; JStr "a"; JStr "b"; JBool true]) = true /\
+  enc_ok 9 E0 false false t_unp_fix (VList [VInt 1; VStr "a"; VFlt "2.5"]) (JArr [JInt 1; JStr "a"; JFlt "2.5"]) = true /\
+  (exists s, schema_f E0 dl2020 false false 9 t_unp_var = Some s /\
+             jvalid pm_any [] 50 s (JArr [JInt 1; JStr "a"; JStr "b"; JBool true]) = true /\
+             jvalid pm_any [] 50 s (JArr [JInt 1]) = false) /\
+  (exists s, schema_f E0 dl2020 false false 9 t_unp_fix = Some s /\
+             jvalid pm_any [] 50 s (JArr [JInt 1; JStr "a"; JFlt "2.5"]) = true /\
+             jvalid pm_any [] 50 s (JArr [JInt 1; JInt 2; JFlt "2.5"]) = false).
+Proof. exact nonvacuous_unpack. Qed.
+
+Example C06_nonvacuous_unpack_nested :
+  ty_ok 9 E0 false false t_unp_nest = true /\
+  enc_ok 9 E0 false false t_unp_nest (VList [VInt 1; VStr "a"; VFlt "2.5"; VFlt "0.5"; VBool true])
+         (JArr [JInt 1; JStr "a"; JFlt "2.5"; JFlt "0.5"; JBool true]) = true /\
+  exists s, schema_f E0 dl2020 false false 9 t_unp_nest = Some s /\
+            jvalid pm_any [] 50 s (JArr [JInt 1; JStr "a"; JFlt "2.5"; JFlt "0.5"; JBool true]) = true /\
+            jvalid pm_any [] 50 s (JArr [JInt 1; JBool true]) = false.
+Proof. exact nonvacuous_unpack_nested. Qed.
